@@ -154,7 +154,7 @@ CLAIMS = {
 }
 
 NA = {
- "C11": "not decided: agreement of both peers and chunking independence need Upgrader.Upgrade, Dialer.Upgrade and readLine (bufio) under contract plus a relational lemma; only their parsing primitives are (see C09/C10); nothing is claimed (DESIGN.md section 5)",
+ "C11": "not decided: the decisions of Dialer.Upgrade/Upgrader.Upgrade are under contract (C09/C10) only over a ghost sequence of lines; that the line sequence is independent of transport chunking (readLine over bufio is a trusted contract), that both peers reach the same outcome (a relational statement over both functions and the header contents) and that the debug wrappers report exactly the bytes exchanged are not proved; nothing is claimed (DESIGN.md section 5)",
  "C19": "not applicable: a property over concurrent schedules of goroutines and shared pools; per-function contracts with a sequential heap model cannot express or decide it (DESIGN.md section 5)",
  "C20": "not applicable: cancellation/deadline behaviour of Dial depends on goroutines, timers and net.Conn deadlines (whole-history, concurrency); outside what per-call contracts decide (DESIGN.md section 5)",
 }
